@@ -128,6 +128,21 @@ impl<T: ZeroCopy + DeserializeInner, const N: usize> DeserializeHelper<Zero> for
     }
 }
 
+/// The initialized prefix of an array under construction: dropping it drops
+/// the `len` items at `ptr`, so that a deserialization that returns early
+/// or unwinds does not leak the items it has already built.
+struct PartialArray<I> {
+    ptr: *mut I,
+    len: usize,
+}
+
+impl<I> Drop for PartialArray<I> {
+    fn drop(&mut self) {
+        // SAFETY: the first len items have been initialized
+        unsafe { core::ptr::drop_in_place(core::ptr::slice_from_raw_parts_mut(self.ptr, self.len)) };
+    }
+}
+
 impl<T: DeepCopy + DeserializeInner, const N: usize> DeserializeHelper<Deep> for [T; N] {
     type FullType = Self;
     type DeserType<'a> = [<T as DeserializeInner>::DeserType<'a>; N];
@@ -135,18 +150,15 @@ impl<T: DeepCopy + DeserializeInner, const N: usize> DeserializeHelper<Deep> for
     fn _deserialize_full_inner_impl(backend: &mut impl ReadWithPos) -> deser::Result<Self> {
         let mut res = MaybeUninit::<[T; N]>::uninit();
         let ptr = res.as_mut_ptr() as *mut T;
+        // Drops the items built so far if an item fails or panics
+        let mut built = PartialArray { ptr, len: 0 };
         for i in 0..N {
-            match T::_deserialize_full_inner(backend) {
-                // SAFETY: i < N, so the write is in bounds
-                Ok(item) => unsafe { ptr.add(i).write(item) },
-                Err(e) => {
-                    // SAFETY: the first i items have been initialized; drop
-                    // them, as otherwise they would be leaked
-                    unsafe { core::ptr::drop_in_place(core::ptr::slice_from_raw_parts_mut(ptr, i)) };
-                    return Err(e);
-                }
-            }
+            let item = T::_deserialize_full_inner(backend)?;
+            // SAFETY: i < N, so the write is in bounds
+            unsafe { ptr.add(i).write(item) };
+            built.len = i + 1;
         }
+        core::mem::forget(built);
         // SAFETY: all N items have been initialized
         Ok(unsafe { res.assume_init() })
     }
@@ -156,18 +168,15 @@ impl<T: DeepCopy + DeserializeInner, const N: usize> DeserializeHelper<Deep> for
     ) -> deser::Result<<Self as DeserializeInner>::DeserType<'a>> {
         let mut res = MaybeUninit::<<Self as DeserializeInner>::DeserType<'_>>::uninit();
         let ptr = res.as_mut_ptr() as *mut <T as DeserializeInner>::DeserType<'a>;
+        // Drops the items built so far if an item fails or panics
+        let mut built = PartialArray { ptr, len: 0 };
         for i in 0..N {
-            match T::_deserialize_eps_inner(backend) {
-                // SAFETY: i < N, so the write is in bounds
-                Ok(item) => unsafe { ptr.add(i).write(item) },
-                Err(e) => {
-                    // SAFETY: the first i items have been initialized; drop
-                    // them, as otherwise they would be leaked
-                    unsafe { core::ptr::drop_in_place(core::ptr::slice_from_raw_parts_mut(ptr, i)) };
-                    return Err(e);
-                }
-            }
+            let item = T::_deserialize_eps_inner(backend)?;
+            // SAFETY: i < N, so the write is in bounds
+            unsafe { ptr.add(i).write(item) };
+            built.len = i + 1;
         }
+        core::mem::forget(built);
         // SAFETY: all N items have been initialized
         Ok(unsafe { res.assume_init() })
     }
